@@ -77,6 +77,16 @@ Theorem C39_dialogs_partial :
 Proof. exact d_iterate_correct. Qed.
 Print Assumptions C39_dialogs_partial.
 
+(* Total() / FetchTotal() (the limit-1 count probe, also issued by the generated Collect()/Count()) may be
+   called at any points before, between and after the Next calls -- any schedule [calls] -- without
+   changing what is iterated: same values, same end. With C39_messages: still exactly the history. *)
+Theorem C39_messages_total_frame :
+  forall (srv : mserver) (limit : Z) (calls : list (nat * Z)) (fuel : nat),
+    let '(ys, _, _, _, fin) := m_iterate_t srv limit calls fuel 0 m_init in
+    ys = m_yield (m_iterate srv limit fuel m_init) /\ fin = m_fin (m_iterate srv limit fuel m_init).
+Proof. intros srv limit calls fuel. exact (m_iterate_t_yields srv limit calls fuel 0 m_init m_init eq_refl). Qed.
+Print Assumptions C39_messages_total_frame.
+
 (* Value() indexes buf[bufCur]: after every true Next the cursor is inside the buffer (from the initial
    state the premise -1 <= cursor holds and is preserved), so Value never panics *)
 Theorem C39_value_in_range :
